@@ -14,6 +14,33 @@ pub enum LuaValue {
     Unknown,
 }
 
+/// Converts a number into the string Lua produces for it (`tostring`, `..`), but only when
+/// every Lua runtime agrees on the result: Lua 5.1 formats numbers with `%.14g` while Luau
+/// prints the shortest representation that round-trips, and the text for `nan` and infinities
+/// depends on the platform. Both agree for finite numbers in fixed notation that need at most
+/// 14 significant digits.
+fn lua_number_to_string(value: f64) -> Option<String> {
+    if !value.is_finite() {
+        return None;
+    }
+    if value == 0.0 {
+        return Some(if value.is_sign_negative() { "-0" } else { "0" }.to_owned());
+    }
+    let magnitude = value.abs();
+    if !(1e-4..1e14).contains(&magnitude) {
+        // `%.14g` switches to the scientific notation
+        return None;
+    }
+    // Rust formats the shortest representation that round-trips, without exponent
+    let text = value.to_string();
+    let significant_digits = text
+        .chars()
+        .filter(char::is_ascii_digit)
+        .skip_while(|digit| *digit == '0')
+        .count();
+    (significant_digits <= 14).then_some(text)
+}
+
 impl LuaValue {
     /// As defined in Lua, all values are considered true, except for false and nil. An option is
     /// returned as the LuaValue may be unknown, so it would return none.
@@ -112,7 +139,7 @@ impl LuaValue {
     /// possible and return the same value otherwise.
     pub fn string_coercion(self) -> Self {
         match &self {
-            Self::Number(value) => Some(Self::from(value.to_string())),
+            Self::Number(value) => lua_number_to_string(*value).map(Self::from),
             _ => None,
         }
         .unwrap_or(self)
